@@ -120,7 +120,7 @@ def main(run):
         batch = er.Batch(run, "c04mod%d" % bi)
         specs = []
         if bi == 0:
-            specs += [er.witness_neg(), er.witness_big(), er.witness_alias()]
+            specs += [er.witness_neg(), er.witness_big(), er.witness_alias()] + er.coincidence_specs()
         specs += [eg.gen_enum_pkg(run.rng, "p%04d" % (done + i), profile="c04") for i in range(n)]
         by_name = {}
         for spec in specs:
